@@ -651,5 +651,30 @@ def s_min(a, b):
         return _np.minimum(a, b)
 
 
+def _isnan_c(x):
+    return isinstance(x, (float, _np.floating)) and math.isnan(x)
+
+
+def s_fmin(a, b):
+    """np.fmin: a NaN operand is ignored (symbolic values are finite)"""
+    if _isnan_c(a):
+        return b
+    if _isnan_c(b):
+        return a
+    if isinstance(a, SV) or isinstance(b, SV):
+        return s_min(a, b)
+    return _np.fmin(a, b)
+
+
+def s_fmax(a, b):
+    if _isnan_c(a):
+        return b
+    if _isnan_c(b):
+        return a
+    if isinstance(a, SV) or isinstance(b, SV):
+        return s_max(a, b)
+    return _np.fmax(a, b)
+
+
 def is_sym(x):
     return isinstance(x, (SV, SB, SIdx))
